@@ -103,6 +103,11 @@ func (s *State) ExpandMacros(program ast.Node) ast.Node {
 		}
 
 		evalEnv := extendMacroEnv(macro, args)
+		// The macro body runs inside this evaluation: same output, deadline/cancellation and depth accounting
+		// (a zero State has MaxDepth 0, a nil Out and a nil cache map).
+		evalEnv.Out, evalEnv.LogOut, evalEnv.NoLog = s.Out, s.LogOut, s.NoLog
+		evalEnv.MaxDepth, evalEnv.depth, evalEnv.Context, evalEnv.Cancel = s.MaxDepth, s.depth, s.Context, s.Cancel
+		evalEnv.cache = NewCache()
 
 		evaluated := evalEnv.Eval(macro.Body)
 
